@@ -57,7 +57,7 @@ fn fnv(s: &str) -> String { let mut h: u64 = 0xcbf29ce484222325; for b in s.byte
 
 impl Prop for C09 {
   fn id(&self) -> &'static str { "C09" }
-  fn rule(&self) -> String { "inputs: (i) random strings of 1-60 tokens over the Mech token alphabet (operators, brackets, fence sigils, box-drawing and set/table operators, digits, identifiers, quotes, CR/LF/tab, combining sequences, ZWJ emoji, BOM, RTL mark); (ii) the 632 corpus programs and generated programs with 1-3 mutations (delete / duplicate / swap / insert bracket / truncate / splice); (iii) every .mec document in the repository: all line-boundary prefixes plus seeded inner cuts; (iv) valid generated programs with a unique marker identifier per statement; (v) random strings over a Mechdown vocabulary (fence openers for every info string, $$, links, images, footnotes, lists, checkboxes, quotes, callouts, tables, rules, Mika faces), fenced blocks of each of 30 info strings x both sigils with token bodies, and small documents with 1-3 mutations. Oracle per input: no panic escapes parser::parse, the result is a tree or a ParserErrorReport with >= 1 context whose ranges lie inside the input, TextFormatter::format_error returns, two parses give the same Debug rendering (also across processes through digests), an accepted generated program contains every marker, and a parse before and after an interpreter session agree. Hook monitors: LoopGuard (three identical consecutive cursors in a hand-written loop) and the step budget. Non-trivial = every input is".into() }
+  fn rule(&self) -> String { "inputs: (i) random strings of 1-60 tokens over the Mech token alphabet (operators, brackets, fence sigils, box-drawing and set/table operators, digits, identifiers, quotes, CR/LF/tab, combining sequences, ZWJ emoji, BOM, RTL mark); (ii) the 632 corpus programs and generated programs with 1-3 mutations (delete / duplicate / swap / insert bracket / truncate / splice); (iii) every .mec document in the repository: all line-boundary prefixes plus seeded inner cuts; (iv) valid generated programs with a unique marker identifier per statement; (v) random strings over a Mechdown vocabulary (fence openers for every info string, $$, links, images, footnotes, lists, checkboxes, quotes, callouts, tables, rules, Mika faces), fenced blocks of each of 30 info strings x both sigils with token bodies, and small documents with 1-3 mutations; (vi) structured degenerate forms: front matter keys x value forms (text, image, figure table, link, empty, fence, ...) and 36 well-formed and malformed patterns in every pattern position (match arm, function arm, comprehension generator, state pattern, guarded arm). Oracle per input: no panic escapes parser::parse, the result is a tree or a ParserErrorReport with >= 1 context whose ranges lie inside the input, TextFormatter::format_error returns, two parses give the same Debug rendering (also across processes through digests), an accepted generated program contains every marker, and a parse before and after an interpreter session agree. Hook monitors: LoopGuard (three identical consecutive cursors in a hand-written loop) and the step budget. Non-trivial = every input is".into() }
   fn assumptions(&self) -> Vec<String> { vec![
     "range bounds: 1 <= row <= lines+1, 1 <= col <= width(row)+2, start <= end (ParseError::new sets end.col = start.col + 1)".into(),
     "an input that needs more than the logical step budget (2*10^7 attempted consumptions in quick, 2*10^8 in thorough) is inconclusive, never a verdict".into(),
@@ -115,6 +115,21 @@ impl Prop for C09 {
           let pre = if rng.chance(1, 3) { "para\n\n" } else { "" };
           out.push(Case { id: format!("fence;info={};sigil={};j={}", ii, sigil, j), cell: "md-fence".into(), input: json!({"text": format!("{}{}{}\n{}{}", pre, sigil, info, body, close)}) });
         }
+      }
+    }
+    // (vi) structured degenerate forms: front matter (every key x value forms) and patterns in every pattern position
+    let fm_keys = ["abstract", "author", "date", "kicker", "subtitle", "hero", "summary", "title", "unknown"];
+    let fm_vals = ["some text", "", "![a](b.png)", "| ![a](b.png) |", "| ![a](b.png) | ![c](d.png) |", "|![a](b.png)|", "[l](u)", "2024-01-01", "| a | b |", "```", "$$x$$", "%% c", "  ", "|", "| |", "![a]()", "![](b)"];
+    for (ki, k) in fm_keys.iter().enumerate() { for (vi, v) in fm_vals.iter().enumerate() {
+      for (ti, title) in ["Title\n=====\n\n", "Title\n=====\n", ""].iter().enumerate() {
+        out.push(Case { id: format!("frontmatter;k={};v={};t={}", ki, vi, ti), cell: "md-frontmatter".into(), input: json!({"text": format!("{}{}: {}\n\nbody text\n", title, k, v)}) });
+      }
+      if vi % 4 == 0 { let k2 = fm_keys[(ki + 3) % fm_keys.len()]; out.push(Case { id: format!("frontmatter2;k={};v={}", ki, vi), cell: "md-frontmatter".into(), input: json!({"text": format!("Title\n=====\n\n{}: {}\n{}: {}\n\nbody\n", k, v, k2, fm_vals[(vi + 5) % fm_vals.len()])}) }); }
+    } }
+    let pats = ["[a |]", "[a, b | ]", "[| a]", "[a | b]", "[a …]", "[… a]", "[a … b]", "[…]", "[]", "[a, | b]", "[a b | c]", "[a | b | c]", "[1 | ]", "(a, )", "(, a)", "()", "(a)", ":a()", ":a(b,)", ":a(", "a, ", ", a", "*", "_", "1..", "..1", "{a}", "{a: }", "{a: b}", "[a |", "[a …", "a |", "| a", "…", "[… | a]", "[a, …, b]"];
+    for (pi, pat) in pats.iter().enumerate() {
+      for (fi, src) in [format!("r := x?\n  | {} => 1\n  | * => 2.", pat), format!("x? | {} => 1 | * => 2.", pat), format!("f(x<u64>) => <u64>\n  | {} => 1\n  | * => 2.", pat), format!("r := [x | {} <- y]", pat), format!("r := {{x | {} <- y}}", pat), format!("#M(n) -> :A(n)\n  :A({}) -> :B(n)\n  :B(n) => n.", pat), format!("r := x?\n  | {}, x > 1 => 1\n  | * => 2.", pat)].iter().enumerate() {
+        out.push(Case { id: format!("pattern;p={};f={}", pi, fi), cell: "pattern-forms".into(), input: json!({"text": src}) });
       }
     }
     // documents with 1-3 mutations
